@@ -20,3 +20,11 @@ open Bpmn.Props.C12 Bpmn.Props.EngineCurrent
 #print axioms Bpmn.Props.C12Steps.return_sub_once
 #print axioms Bpmn.Props.C12Steps.sub_programs_are_token_game
 #print axioms Bpmn.Props.C12Steps.return_when_scope_empty
+#print axioms Bpmn.Props.C12Nest.descend
+#print axioms Bpmn.Props.C12Nest.ascend
+#print axioms Bpmn.Props.C12Nest.nest_run
+#print axioms Bpmn.Props.C12Nest.nest_shape
+#print axioms Bpmn.Props.C12Nest.nestProc_run
+#print axioms Bpmn.Props.C12Nest.nest_as_inline
+#print axioms Bpmn.Props.C12Steps.nest_run_current
+#print axioms Bpmn.Props.C12Steps.nestProc_run_current
